@@ -425,21 +425,30 @@ inductive Ty
   | other                                 -- anything else (dict, ...)
 deriving Repr, DecidableEq, Inhabited
 
-/-- `type_map` -/
+/-- the five native element/field types and their formats (first five `if t is ...` branches of `type_map`) -/
+def nativeFmt : Ty → Option String
+  | .bool => some "?"
+  | .int => some "q"
+  | .float => some "d"
+  | .bytes => some "varlenH"
+  | .str => some "varlenHutf8"
+  | _ => none
+
+/-- `type_map`.  For `list[T]` the code evaluates `issubclass(T, Serializable)` first, which raises TypeError
+    when `T` is not a class (a TypeVar, a nested `list[...]`), then recurses into `type_map(T)`. -/
 def typeMap : Ty → Except Err Fmt
-  | .bool => .ok (.str "?")
-  | .int => .ok (.str "q")
-  | .float => .ok (.str "d")
-  | .bytes => .ok (.str "varlenH")
-  | .str => .ok (.str "varlenHutf8")
   | .tvar n => .ok (.str n)
   | .collSer c => .ok (.lst c)
-  | .coll e => match typeMap e with
-    | .ok (.str s) => .ok (.str ("arrayH-" ++ s))
-    | .ok _ => .error .typeError           -- f-string of a class: not a usable format (issubclass raises first)
-    | .error e => .error e
   | .ser c => .ok (.cls c)
   | .other => .error .notImplemented
+  | .coll e => match nativeFmt e with
+    | some s => .ok (.str ("arrayH-" ++ s))
+    | none => match e with
+      | .other => .error .notImplemented
+      | _ => .error .typeError
+  | t => match nativeFmt t with
+    | some s => .ok (.str s)
+    | none => .error .notImplemented
 
 /-- a dataclass payload: fields in declaration order (name, annotation, default) -/
 structure DDef (V : Type) where
